@@ -169,19 +169,32 @@ def Net.descendants (net : Net) (n : Nat) : List Nat := reachFrom net net.nodes.
 def localIP (net : Net) (st : State) (n : Nat) : Rat :=
   (st.node n).il + lmin ((net.cfg n).inE.map fun e => (st.edge e).rm + (st.edge e).oo + (st.edge e).idi)
 
-/-- Echelon inventory position before demand (node_state_vars.py:1114-1236, single product). -/
-def echelonIP (net : Net) (st : State) (n : Nat) : Rat :=
+/-- In transit to node `d` from node `n` or from one of `n`'s descendants `desc` (sum over `d`'s in-edges). -/
+def transitInto (net : Net) (n : Nat) (desc : List Nat) (ispls : Nat → List Rat) (d : Nat) : Rat :=
+  lsum ((net.cfg d).inE.map fun e =>
+    match (net.edge e).src with
+    | some p => if p = n ∨ desc.contains p then lsum (ispls e) else 0
+    | none => 0)
+
+/-- Sum over the node's own in-edges of one component of the (raw material, on-order, held at the door) triple. -/
+def ownTot (net : Net) (n : Nat) (ipf : Nat → Rat × Rat × Rat) (f : Rat × Rat × Rat → Rat) : Rat :=
+  lsum ((net.cfg n).inE.map fun e => f (ipf e))
+
+/-- The echelon inventory position as a function of what it reads: every node's inventory level (`ils`), the inbound
+shipment pipelines of the edges (`ispls`), and the (raw material, on-order, held at the door) triple of the node's own
+in-edges (`ipf`) (node_state_vars.py:1114-1236, single product). -/
+def eipOf (net : Net) (n : Nat) (ils : Nat → Rat) (ispls : Nat → List Rat) (ipf : Nat → Rat × Rat × Rat) : Rat :=
   let desc := net.descendants n
-  let eoh := pos (st.node n).il + lsum (desc.map fun d =>
-      pos (st.node d).il + lsum ((net.cfg d).inE.map fun e =>
-        match (net.edge e).src with
-        | some p => if p = n ∨ desc.contains p then lsum (st.edge e).ispl else 0
-        | none => 0))
-  let eil := eoh - lsum ((n :: desc).map fun d => if (net.succs d).isEmpty then neg (st.node d).il else 0)
+  let eoh := pos (ils n) + lsum (desc.map fun d => pos (ils d) + transitInto net n desc ispls d)
+  let eil := eoh - lsum ((n :: desc).map fun d => if (net.succs d).isEmpty then neg (ils d) else 0)
   let k : Rat := ((net.cfg n).inE.length : Nat)
-  let tot (f : EdgeSt → Rat) : Rat := lsum ((net.cfg n).inE.map fun e => f (st.edge e))
   let agg (x : Rat) : Rat := if x = 0 then 0 else x / k
-  eil + agg (tot (·.oo)) + agg (tot (·.rm)) + agg (tot (·.idi))
+  eil + agg (ownTot net n ipf (·.2.1)) + agg (ownTot net n ipf (·.1)) + agg (ownTot net n ipf (·.2.2))
+
+/-- Echelon inventory position before demand, read off a state. -/
+def echelonIP (net : Net) (st : State) (n : Nat) : Rat :=
+  eipOf net n (fun k => (st.node k).il) (fun e => (st.edge e).ispl)
+    (fun e => ((st.edge e).rm, (st.edge e).oo, (st.edge e).idi))
 
 def demandNow (net : Net) (st : State) (n : Nat) : Rat :=
   lsum ((net.cfg n).outE.map fun e => (st.edge e).io)
